@@ -283,6 +283,8 @@ static bool do_op(const std::vector<std::string> &op) {
   if (o == "settime") { g_vtime = atol(op[1].c_str()); return false; }
   if (o == "advance") { g_vtime += atol(op[1].c_str()); return false; }   // time passes, no tick
   if (o == "connect") {
+    { User &old = g_users[op[1]]; if (old.fd >= 0) g_fd2user.erase(old.fd); }
+    g_users[op[1]] = User();      // a name may be reused after its connection is gone: fresh client state
     g_users[op[1]].name = op[1];
     g_pending_connects.push_back(op[1]);
     emit("\"e\":\"Connect\",\"u\":" + jstr(op[1]));
@@ -625,6 +627,7 @@ int main(int argc, char **argv) {
       reports.push_back(r); asan_kind.clear(); frames.clear();
     };
     bool in_first_stack = false;
+    int nlog = 0;
     while (std::getline(is, l)) {
       size_t p = l.find("@@H{");
       if (p == std::string::npos) p = l.find("@@V{");
@@ -664,16 +667,17 @@ int main(int argc, char **argv) {
           if (!frames.empty()) in_first_stack = false;
         }
       }
-      if (l.find("AddressSanitizer") == std::string::npos && l.find("==") != 0 && l.find("    #") != 0 && !l.empty() && other.size() < 400)
-        other.push_back(l);
+      // driver log lines (errors reported through debug_message), in order of appearance: C09 "reports the error"
+      if (l.find("AddressSanitizer") == std::string::npos && l.find("==") != 0 && l.find("    #") != 0 && !l.empty() && nlog < 400) {
+        const std::string &ol = l;
+        if (ol.find("*") != std::string::npos || ol.find("rror") != std::string::npos || ol.find("heart beat") != std::string::npos ||
+            ol.find("atal") != std::string::npos || ol.find("eval_cost") != std::string::npos) {
+          nlog++;
+          fprintf(out, "{\"e\":\"Log\",\"t\":%s}\n", jstr(ol.size() > 300 ? ol.substr(0, 300) : ol).c_str());
+        }
+      }
     }
     flush_report();
-    // driver log lines (errors reported through debug_message) kept compactly for C09 "reports the error"
-    for (auto &ol : other) {
-      if (ol.find("*") != std::string::npos || ol.find("rror") != std::string::npos || ol.find("heart beat") != std::string::npos ||
-          ol.find("atal") != std::string::npos || ol.find("eval_cost") != std::string::npos)
-        fprintf(out, "{\"e\":\"Log\",\"t\":%s}\n", jstr(ol.size() > 300 ? ol.substr(0, 300) : ol).c_str());
-    }
     std::string rep = "[";
     for (size_t i = 0; i < reports.size() && i < 8; i++) { if (i) rep += ","; rep += reports[i]; }
     rep += "]";
